@@ -1,0 +1,18 @@
+//go:build verif
+
+// Machine-checked contracts for package transport (comment-only; read by
+// /verif/gocv). The ghost history of a tunnel is attached to the Transport
+// interface: every implementation is assumed to emit these events.
+package transport
+
+//@ iface transport.Transport.WritePacket(b) (n, err)
+//@   requires[C01] history: mayWrite(b)
+//@   assigns #lastType, #lastStatus, #errSent, #hsOK, #tcOK, #taOK, #ccOK, #closeOK
+//@   ensures written(b)
+//@   ensures err == nil ==> n == len(b)
+
+//@ iface transport.Transport.ReadPacket() (n, p, err)
+//@   requires[C01] quiet: !#errSent && !#closeOK
+//@   ensures err == nil ==> n == len(p) && n >= 0
+
+//@ iface transport.Transport.Close() (err)
